@@ -76,91 +76,184 @@ theorem cue_count_limit_witness : readCues (mk "cue " ++ le4 (4 + 2501 * 24) ++ 
 /-- what a re-opened file returns for a stored bext block: everything but the reserved field -/
 def Bext.reread (b : Bext) : Bext := { b with reserved := zeros 180 }
 
-theorem bext_chunk_roundtrip (b : Bext) (h : b.wf) (hlim : BEXT_MIN + b.history.length ≤ BEXT_MAX) :
-    readBext (writeBext b) = some b.reread := by
+theorem bext_chunk_roundtrip_with (maxSize : Nat) (b : Bext) (h : b.wf) (hlim : BEXT_MIN + b.history.length ≤ maxSize)
+    (h16 : b.history.length ≤ 16384) :
+    readBextWith maxSize (writeBext b) = some b.reread := by
   obtain ⟨d1, d2, d3, d4, d5, t1, t2, v, um, a1, a2, a3, a4, a5, _⟩ := h
-  have hs : BEXT_MIN + b.history.length < 2 ^ 32 := by unfold BEXT_MIN BEXT_MAX at *; omega
-  unfold readBext writeBext
+  have hs : BEXT_MIN + b.history.length < 2 ^ 32 := by unfold BEXT_MIN at *; omega
+  unfold readBextWith writeBext
   simp only [List.append_assoc]
   have e4 : (mk "bext").length = 4 := by decide
   rw [drop_front_add (mk "bext") _ 4 0 e4, drop_front_add (mk "bext") _ 4 4 e4]
   simp only [List.drop_zero, take_front _ _ 4 (le4_length _), drop_front _ _ 4 (le4_length _), ofLE_le4 hs]
-  rw [if_neg (by unfold BEXT_MIN BEXT_MAX BEXT_STRUCT_16K at *; omega)]
+  rw [if_neg (by unfold BEXT_MIN BEXT_STRUCT_16K at *; omega)]
   cases b
-  simp_all [Bext.reread, List.take_append, List.drop_append, ofLE_le4, ofLE_le2, List.drop_eq_nil_of_le, List.take_of_length_le, BEXT_MIN]
+  simp_all [Bext.reread, List.drop_append, ofLE_le4, ofLE_le2, List.drop_eq_nil_of_le, List.take_of_length_le, BEXT_MIN]
+
+/-- the chunk round trip for every coding history the writer can emit (at most 16384 bytes): no other bound since the repair -/
+theorem bext_chunk_roundtrip (b : Bext) (h : b.wf) (h16 : b.history.length ≤ 16384) : readBext (writeBext b) = some b.reread :=
+  bext_chunk_roundtrip_with BEXT_MAX b h (by unfold BEXT_MAX; omega) h16
+
+theorem crlfGo_zero (skip : Option Byte) (src : List Byte) : crlfGo 0 skip src = [] := by
+  induction src generalizing skip with
+  | nil => simp [crlfGo]
+  | cons a t ih => simp only [crlfGo]; split <;> simp [ih]
+
+/-- psf_strlcpy_crlf writes at most `room + 1` bytes before the terminator -/
+theorem crlfGo_length (room : Nat) (skip : Option Byte) (src : List Byte) : (crlfGo room skip src).length ≤ room + 1 := by
+  induction src generalizing room skip with
+  | nil => simp [crlfGo]
+  | cons a t ih =>
+    simp only [crlfGo]
+    split
+    · exact ih room none
+    · split
+      · simp
+      · rename_i hr
+        have h2 : ∀ sk, (crlfGo (room - 2) sk t).length + 2 ≤ room + 1 := by
+          intro sk
+          by_cases h1 : room = 1
+          · subst h1; simp [crlfGo_zero]
+          · have := ih (room - 2) sk; omega
+        split
+        · simpa using h2 (some 10)
+        · split
+          · simpa using h2 (some 13)
+          · have := ih (room - 1) none
+            simp only [List.length_cons]; omega
+
+theorem cstr_length_le2 (l : List Byte) : (cstr l).length ≤ l.length := by
+  unfold cstr
+  induction l with
+  | nil => simp
+  | cons a t ih =>
+    simp only [List.takeWhile_cons]
+    split
+    · simp only [List.length_cons]; omega
+    · simp
+
+theorem crlfCopy_length (src : List Byte) : (crlfCopy src).length ≤ 16383 := by
+  have := crlfGo_length (VAR_TEXT - 2) none src
+  have := cstr_length_le2 (crlfGo (VAR_TEXT - 2) none src)
+  unfold crlfCopy VAR_TEXT at *; omega
+
+theorem strlcat_length (d s : List Byte) (h : d.length ≤ 16383) : (strlcat VAR_TEXT d s).length ≤ 16383 := by
+  simp only [strlcat, VAR_TEXT, List.length_append, List.length_take]; omega
+
+theorem closeLine_length (t : List Byte) (h : t.length ≤ 16383) : (closeLine t).length ≤ 16383 := by
+  unfold closeLine; split
+  · exact strlcat_length t _ h
+  · exact h
+
+/-- the stored coding history never exceeds the 16 KiB of SF_BROADCAST_INFO_16K -/
+theorem normHistory_length (mode : Mode) (line src : List Byte) : (normHistory mode line src).length ≤ 16384 := by
+  have h1 := closeLine_length _ (crlfCopy_length src)
+  unfold normHistory
+  simp only [List.length_append, zeros_length]
+  split
+  · have := strlcat_length _ line h1; omega
+  · omega
 
 /-- the value the re-opened file must return: the documented normalisations of SFC_SET_BROADCAST_INFO (CR/LF line ends, a
     line end added when missing, the library's coding-history line appended, even size) plus `version := 2` and the
     reserved field zeroed -/
 def normBext (mode : Mode) (line : List Byte) (info : Bext) : Bext := (setBext mode line info).reread
 
-/-- get after re-open = normalise (set), for every block whose normalised coding history keeps the chunk within the
-    reader's 10 KiB bound -/
-theorem bext_roundtrip (mode : Mode) (line : List Byte) (info : Bext) (h : info.wf)
-    (hlim : (normHistory mode line info.history).length ≤ BEXT_MAX - BEXT_MIN) :
+/-- get after re-open = normalise (set) — at full strength since the repair of the reader's 10 KiB bound: for every
+    block the SET call accepts, whatever the length of its coding history -/
+theorem bext_roundtrip (mode : Mode) (line : List Byte) (info : Bext) (h : info.wf) :
     readBext (writeBext (setBext mode line info)) = some (normBext mode line info) := by
   apply bext_chunk_roundtrip
   · obtain ⟨d1, d2, d3, d4, d5, t1, t2, v, um, a1, a2, a3, a4, a5, r⟩ := h
     exact ⟨d1, d2, d3, d4, d5, t1, t2, by simp [setBext], um, a1, a2, a3, a4, a5, r⟩
-  · simp only [setBext]; unfold BEXT_MAX BEXT_MIN at *; omega
+  · simpa [setBext] using normHistory_length mode line info.history
 
 def bextSample : Bext := ⟨fixW 256 (ascii "desc"), zeros 32, zeros 32, zeros 10, zeros 8, 1, 2, 1, zeros 64, 1, 2, 3, 4, 5, zeros 180, ascii "A=PCM\n"⟩
 
 example : readBext (writeBext (setBext .write (ascii "T=x\r\n") bextSample)) = some (normBext .write (ascii "T=x\r\n") bextSample) ∧
     (normBext .write (ascii "T=x\r\n") bextSample).history = ascii "A=PCM\r\nT=x\r\n" := by decide +kernel
 
-/-- the full statement has no 10 KiB bound: sndfile.h offers SF_BROADCAST_INFO_VAR up to 16 KiB of coding history -/
-def bext_full : Prop := ∀ (b : Bext), b.wf → b.history.length < 16384 → readBext (writeBext b) = some b.reread
+/-- the full statement: every block with up to 16 KiB of coding history (what sndfile.h offers) survives -/
+def bext_full_for (read : List Byte → Option Bext) : Prop :=
+  ∀ (b : Bext), b.wf → b.history.length ≤ 16384 → read (writeBext b) = some b.reread
 
-/-- a stored coding history of more than 9638 bytes (chunk > 10 KiB): the writer emits it, the reader skips the whole chunk -/
-theorem bext_over_limit (b : Bext) (hlim : BEXT_MIN + b.history.length > BEXT_MAX) (hs : b.history.length < 16384) :
-    readBext (writeBext b) = none := by
+theorem bext_full : bext_full_for readBext := fun b h h16 => bext_chunk_roundtrip b h h16
+
+theorem bext_over_limit_old_rule (b : Bext) (hlim : BEXT_MIN + b.history.length > BEXT_MAX_OLD) (hs : b.history.length ≤ 16384) :
+    readBextOld (writeBext b) = none := by
   have hs : BEXT_MIN + b.history.length < 2 ^ 32 := by unfold BEXT_MIN; omega
-  unfold readBext writeBext
+  unfold readBextOld readBextWith writeBext
   simp only [List.append_assoc]
   have e4 : (mk "bext").length = 4 := by decide
   rw [drop_front_add (mk "bext") _ 4 0 e4]
   simp only [List.drop_zero, take_front _ _ 4 (le4_length _), ofLE_le4 hs]
   rw [if_pos (by omega)]
 
-theorem bext_history_limit_witness : ¬ bext_full := by
+/-- before the repair: a stored coding history of more than 9638 bytes (chunk > 10 KiB) was emitted by the writer and the whole
+    chunk skipped by the reader -/
+theorem bext_history_limit_old_rule : ¬ bext_full_for readBextOld := by
   intro h
   have hw : ({ bextSample with history := zeros 9640 } : Bext).wf := by decide +kernel
   have := h { bextSample with history := zeros 9640 } hw (by simp)
-  rw [bext_over_limit _ (by simp [BEXT_MIN, BEXT_MAX]) (by simp)] at this
+  rw [bext_over_limit_old_rule _ (by simp [BEXT_MIN, BEXT_MAX_OLD]) (by simp)] at this
   cases this
 
 /-! ## cart -/
 
 def Cart.reread (c : Cart) : Cart := { c with reserved := zeros 276 }
 
-theorem cart_chunk_roundtrip (c : Cart) (h : c.wf) (hlim : c.tag.length < 16384) :
-    readCart (writeCart c) = some c.reread := by
+theorem cart_chunk_roundtrip_with (limit : Nat) (c : Cart) (h : c.wf) (hlim : CART_MIN + c.tag.length < limit) (h16 : c.tag.length ≤ 16384) :
+    readCartWith limit (writeCart c) = some c.reread := by
   obtain ⟨h1, h2, h3⟩ := h
   have hs : CART_MIN + c.tag.length < 2 ^ 32 := by unfold CART_MIN; omega
-  unfold readCart writeCart
+  unfold readCartWith writeCart
   simp only [List.append_assoc]
   have e4 : (mk "cart").length = 4 := by decide
   rw [drop_front_add (mk "cart") _ 4 0 e4, drop_front_add (mk "cart") _ 4 4 e4]
   simp only [List.drop_zero, take_front _ _ 4 (le4_length _), drop_front _ _ 4 (le4_length _), ofLE_le4 hs]
-  rw [if_neg (by unfold CART_MIN CART_STRUCT_16K; omega)]
+  rw [if_neg (by unfold CART_MIN at *; omega)]
   cases c
-  simp_all [Cart.reread, List.take_append, List.drop_append, List.drop_eq_nil_of_le, List.take_of_length_le, CART_MIN]
+  simp_all [Cart.reread, List.drop_append, List.drop_eq_nil_of_le, List.take_of_length_le, CART_MIN]
+
+theorem cart_chunk_roundtrip (c : Cart) (h : c.wf) (h16 : c.tag.length ≤ 16384) : readCart (writeCart c) = some c.reread :=
+  cart_chunk_roundtrip_with _ c h (by unfold CART_MIN CART_STRUCT_16K; omega) h16
 
 def normCart (junk : Byte) (info : Cart) : Cart := (setCart junk info).reread
 
-/-- get after re-open = normalise (set): CR/LF line ends, a line end added when missing, NUL padding to an even size;
-    the reserved field is written as zeros.  `junk` is the byte after the terminator that cart_var_set never writes. -/
-theorem cart_roundtrip (junk : Byte) (info : Cart) (h : info.wf) (hlim : (normTag junk info.tag).length < 16384) :
+theorem normTag_length (junk : Byte) (src : List Byte) : (normTag junk src).length ≤ 16384 := by
+  have h1 := closeLine_length _ (crlfCopy_length src)
+  unfold normTag
+  simp only [List.length_append, List.length_cons, List.length_nil]
+  split
+  · rename_i hev; simp only [List.length_cons, List.length_nil]; omega
+  · simp only [List.length_nil]; omega
+
+/-- get after re-open = normalise (set) at full strength since the repair of the reader's size test: CR/LF line ends, a line
+    end added when missing, NUL padding to an even size; the reserved field is written as zeros.  `junk` is the byte after
+    the terminator that cart_var_set never writes. -/
+theorem cart_roundtrip (junk : Byte) (info : Cart) (h : info.wf) :
     readCart (writeCart (setCart junk info)) = some (normCart junk info) := by
   apply cart_chunk_roundtrip
   · exact h
-  · simpa [setCart] using hlim
+  · simpa [setCart] using normTag_length junk info.tag
 
 def cartSample : Cart := ⟨fixW 748 (ascii "0101title"), zeros 276, fixW 1024 (ascii "http://x"), ascii "tag\rtext"⟩
 
 example : readCart (writeCart (setCart 0 cartSample)) = some (normCart 0 cartSample) ∧
     (normCart 0 cartSample).tag = ascii "tag\r\ntext\r\n" ++ [0] := by decide +kernel
+
+/-- before the repair (`>=` where `>` is meant): a tag text that fills the 16 KiB was written and then refused by the reader -/
+theorem cart_full_size_old_rule (c : Cart) (h16 : c.tag.length = 16384) : readCartOld (writeCart c) = none := by
+  have hs : CART_MIN + c.tag.length < 2 ^ 32 := by unfold CART_MIN; omega
+  unfold readCartOld readCartWith writeCart
+  simp only [List.append_assoc]
+  have e4 : (mk "cart").length = 4 := by decide
+  rw [drop_front_add (mk "cart") _ 4 0 e4]
+  simp only [List.drop_zero, take_front _ _ 4 (le4_length _), ofLE_le4 hs]
+  rw [if_pos (by unfold CART_MIN CART_STRUCT_16K; omega)]
+
+/-- … and such texts exist: 16381 characters and a line end normalise to 16383 bytes, tag_text_size 16384 -/
+example : (normTag 0 (List.replicate 16381 120 ++ [10])).length = 16384 := by decide +kernel
 
 /-! ## LIST/INFO -/
 
@@ -262,6 +355,31 @@ theorem info_roundtrip (es : List (Nat × List Byte)) (h : ∀ e ∈ es, infoOk 
     simp only [take_front _ _ 4 i4, drop_front _ _ 4 i4]
     rw [if_pos (Or.inl trivial)]
     exact parseItems_items (e :: t) h _ (by omega)
+
+theorem serItem_length_le (e : Nat × List Byte) (h : infoOk e) : (serItem e).length ≤ 2056 := by
+  obtain ⟨ty, s⟩ := e
+  obtain ⟨_, hl, hm⟩ := h
+  obtain ⟨m, hm⟩ := Option.isSome_iff_exists.mp hm
+  obtain ⟨m4, _⟩ := infoMarker_spec hm
+  simp only at hm hl
+  simp [serItem, hm, serString, m4]; omega
+
+theorem flatMap_serItem_length_le (es : List (Nat × List Byte)) (h : ∀ e ∈ es, infoOk e) : (es.flatMap serItem).length ≤ 2056 * es.length := by
+  induction es with
+  | nil => simp
+  | cons e t ih =>
+    have := serItem_length_le e (h e (by simp))
+    have := ih (fun e he => h e (by simp [he]))
+    simp only [List.flatMap_cons, List.length_append, List.length_cons]; omega
+
+/-- `info_roundtrip` for what a string table can hold: at most 32 entries — the 32-bit size field then always fits -/
+theorem info_roundtrip_table (es : List (Nat × List Byte)) (h : ∀ e ∈ es, infoOk e) (h32 : es.length ≤ 32) :
+    parseInfo (serInfo es) = es := by
+  apply info_roundtrip es h
+  have := flatMap_serItem_length_le es h
+  have i4 : (mk "INFO").length = 4 := by decide
+  simp only [infoBody, List.length_append, i4]
+  omega
 
 example : parseInfo (serInfo [(1, ascii "Title"), (3, ascii "me (libsndfile-1.2.2)"), (16, ascii "x")]) =
     [(1, ascii "Title"), (3, ascii "me (libsndfile-1.2.2)"), (16, ascii "x")] := by decide +kernel
@@ -414,13 +532,6 @@ theorem init_inv (fl : Nat) : (Strings.init fl).Inv := by
   simp only [Strings.init, List.mem_replicate] at hs
   rw [hs.2] at hp; simp [Slot.free] at hp
 
-/-- the marks of the slot loop keep the invariant -/
-theorem inv_scan (t : Strings) (ty : Int) (h : t.Inv) : ({ t with slots := (scan ty t.slots).1 } : Strings).Inv := by
-  obtain ⟨h1, h2, h3⟩ := h
-  refine ⟨by simp [scan_length, h1], h2, ?_⟩
-  intro s hs hp
-  exact h3 s (scan_live_mem ty t.slots s hs hp) hp
-
 /-- `strings_store_inv`, one call: offsets stay inside the used part of the store and `used ≤ capacity`, whatever the
     mode, the type, the text and the outcome of the call -/
 theorem store_inv (e : Env) (t : Strings) (ty : Int) (str : List Byte) (h : t.Inv) : (store e t ty str).2.Inv := by
@@ -429,16 +540,15 @@ theorem store_inv (e : Env) (t : Strings) (ty : Int) (str : List Byte) (h : t.In
   split; · exact h
   split; · exact h
   simp only
-  split; · exact inv_scan t ty h
-  split; · exact inv_scan t ty h
-  split; · exact inv_scan t ty h
-  split; · exact inv_scan t ty h
-  split; · exact inv_scan t ty h
-  rename_i hk _ _ _
+  split; · exact h
+  split; · exact h
+  split; · exact h
+  split; · exact h
+  split; · exact h
   obtain ⟨h1, h2, h3⟩ := h
   simp only [Strings.used] at h2 h3 ⊢
   generalize htext : (if (ty = 3 && isWriteMode e.mode) = true then softwareText e.pkgName e.pkgVersion str else str) = text
-  refine ⟨by simp [scan_length, h1], ?_, ?_⟩
+  refine ⟨by simp [markBefore_length, h1], ?_, ?_⟩
   · simp only [Strings.used, List.length_append, List.length_cons, List.length_nil] at h2 ⊢
     have := Nat.le_max_right 256 (2 * t.cap + (text.length + 1) + 1)
     by_cases hc : t.storage.length + (text.length + 1) + 1 > t.cap
@@ -447,7 +557,7 @@ theorem store_inv (e : Env) (t : Strings) (ty : Int) (str : List Byte) (h : t.In
   · intro s hs hp
     simp only [Strings.used, List.length_append, List.length_cons, List.length_nil] at h2 ⊢
     rcases List.mem_or_eq_of_mem_set hs with hs | hs
-    · have hm := scan_live_mem ty t.slots s hs hp
+    · have hm := markBefore_live_mem ty _ t.slots s hs hp
       obtain ⟨a, b⟩ := h3 s hm hp
       refine ⟨by omega, ?_⟩
       rw [List.append_assoc, List.drop_append_of_le_length (by omega)]
@@ -474,37 +584,54 @@ def envW : Env := ⟨.write, false, ascii "libsndfile", ascii "1.2.2"⟩
 example : let t := (store envW (store envW (Strings.init 0x300) 1 (ascii "a")).2 1 (ascii "bc")).2
     get t 1 = some (ascii "bc") ∧ t.used = 5 ∧ t.cap = 256 ∧ (t.slots.take 3).map (·.type) = [-1, 1, 0] := by decide +kernel
 
-/-- the software string: suffix added … -/
+/-- the software string: the suffix is appended unless the package name already occurs; nothing is cut (full strength since
+    the repair of the 128-byte buffer) -/
+theorem software_suffix (pn pv s : List Byte) (hs : s ≠ []) (hn : isInfix pn s = false) :
+    softwareText pn pv s = s ++ [32, 40] ++ pn ++ [45] ++ pv ++ [41] := by
+  unfold softwareText
+  rw [if_neg (by simp [hn]), if_neg (by simpa using hs)]
+
 example : (store envW (Strings.init 0x300) 3 (ascii "me")).2.storage = ascii "me (libsndfile-1.2.2)" ++ [0] := by decide +kernel
 
-/-- … through `char new_str [128]`: a software string is cut to 127 bytes (and loses the suffix) -/
-theorem software_truncated_witness :
-    get (store envW (Strings.init 0x300) 3 (List.replicate 120 65)).2 3 = some (List.replicate 120 65 ++ ascii " (libsn") := by decide +kernel
+example : get (store envW (Strings.init 0x300) 3 (List.replicate 120 65)).2 3 = some (List.replicate 120 65 ++ ascii " (libsndfile-1.2.2)") := by
+  decide +kernel
 
-/-- a refused call may still erase: the 33rd sf_set_string on a handle fails with SFE_STR_MAX_COUNT *after* the slot loop
-    has marked the existing entry of that type as replaced -/
-theorem refused_set_erases_witness :
-    let full := (List.range 32).foldl (fun t k => (store envW t 1 [65 + k]).2) (Strings.init 0x300)
-    get full 1 = some [96] ∧ (store envW full 1 [66]).1 = SFE_STR_MAX_COUNT ∧ get (store envW full 1 [66]).2 1 = none := by decide +kernel
+/-- before the repair the text went through `char new_str [128]`: a software string was cut to 127 bytes (and lost the suffix) -/
+theorem software_truncated_old_rule :
+    get (storeOld envW (Strings.init 0x300) 3 (List.replicate 120 65)).2 3 = some (List.replicate 120 65 ++ ascii " (libsn") := by decide +kernel
 
-/-! ## calls that come too late or that the container cannot store -/
-
-/-- a refused psf_store_string leaves the text of every *other* type where it was -/
-theorem store_refused_get (e : Env) (t : Strings) (ty : Int) (str : List Byte) (ty' : Int) (hne : ty' ≠ ty) (hm : ty' ≠ -1) :
-    (store e t ty str).1 ≠ 0 → get (store e t ty str).2 ty' = get t ty' := by
-  have hscan : get ({ t with slots := (scan ty t.slots).1 } : Strings) ty' = get t ty' := by
-    simp only [get, scan_find_other ty ty' _ hne hm]
+/-- a refused psf_store_string leaves the whole table as it was (full strength since the repair of the slot loop) -/
+theorem store_refused_unchanged (e : Env) (t : Strings) (ty : Int) (str : List Byte) :
+    (store e t ty str).1 ≠ 0 → (store e t ty str).2 = t := by
   unfold store
   split; · intro _; rfl
   split; · intro _; rfl
   split; · intro _; rfl
   simp only
-  split; · intro _; exact hscan
-  split; · intro _; exact hscan
-  split; · intro _; exact hscan
-  split; · intro _; exact hscan
-  split; · intro _; exact hscan
+  split; · intro _; rfl
+  split; · intro _; rfl
+  split; · intro _; rfl
+  split; · intro _; rfl
+  split; · intro _; rfl
   intro h; simp at h
+
+/-- the 33rd call on a handle is refused and, since the repair, the value the type had is still there -/
+example :
+    let full := (List.range 32).foldl (fun t k => (store envW t 1 [65 + k]).2) (Strings.init 0x300)
+    get full 1 = some [96] ∧ (store envW full 1 [66]).1 = SFE_STR_MAX_COUNT ∧ get (store envW full 1 [66]).2 1 = some [96] := by decide +kernel
+
+/-- before the repair a refused call could still erase: the 33rd sf_set_string failed with SFE_STR_MAX_COUNT *after* the slot loop
+    had marked the existing entry of that type as replaced -/
+theorem refused_set_erases_old_rule :
+    let full := (List.range 32).foldl (fun t k => (storeOld envW t 1 [65 + k]).2) (Strings.init 0x300)
+    get full 1 = some [96] ∧ (storeOld envW full 1 [66]).1 = SFE_STR_MAX_COUNT ∧ get (storeOld envW full 1 [66]).2 1 = none := by decide +kernel
+
+/-- … and `sf_set_string (sf, 0, …)` marked every free slot, so that no later string could be stored -/
+theorem type_zero_bricks_table_old_rule :
+    (storeOld envW (storeOld envW (Strings.init 0x300) 0 [65]).2 1 [66]).1 = SFE_STR_MAX_COUNT ∧
+    (store envW (store envW (Strings.init 0x300) 0 [65]).2 1 [66]).1 = 0 := by decide +kernel
+
+/-! ## calls that come too late or that the container cannot store -/
 
 def Op.isAudio : Op → Bool
   | .writeAudio _ => true
@@ -516,20 +643,15 @@ def refused : Op → Nat → Bool
   | .writeAudio _, _ => false
   | _, r => r = 0
 
-def Op.stringType : Op → Int
-  | .setString ty _ => ty
-  | _ => 0
-
-/-- `late_or_unsupported_is_harmless` (model level): a metadata call never touches the audio bytes; when it is refused —
-    because audio has been written, because the container has no place for the item, or because its size fields are
-    inconsistent — bext, cart, cue points and instrument keep their values and every string of another type is still
-    returned.  (The refused call's *own* string type can be lost: `refused_set_erases_witness`.) -/
+/-- `late_or_unsupported_is_harmless` (model level, full strength since the repair of the string-table slot loop): a metadata
+    call never touches the audio bytes; when it is refused — because audio has been written, because the container has no
+    place for the item, or because its size fields are inconsistent — the whole handle state is what it was: strings of
+    every type, bext, cart, cue points and instrument -/
 theorem late_or_unsupported_is_harmless (pn pv : List Byte) (h : MetaState) (op : Op) (hop : op.isAudio = false) :
     (step pn pv h op).2.audio = h.audio ∧ (step pn pv h op).2.haveWritten = h.haveWritten ∧
     (refused op (step pn pv h op).1 = true →
       (step pn pv h op).2.bext = h.bext ∧ (step pn pv h op).2.cart = h.cart ∧ (step pn pv h op).2.cues = h.cues ∧
-      (step pn pv h op).2.inst = h.inst ∧
-      ∀ ty' : Int, ty' ≠ op.stringType → ty' ≠ -1 → get (step pn pv h op).2.strings ty' = get h.strings ty') := by
+      (step pn pv h op).2.inst = h.inst ∧ (step pn pv h op).2.strings = h.strings) := by
   cases op with
   | writeAudio b => simp [Op.isAudio] at hop
   | setString ty s =>
@@ -539,19 +661,68 @@ theorem late_or_unsupported_is_harmless (pn pv : List Byte) (h : MetaState) (op 
     · refine ⟨rfl, rfl, ?_⟩
       intro hr
       refine ⟨rfl, rfl, rfl, rfl, ?_⟩
-      intro ty' hne hm
-      simp only [Op.stringType] at hne
       simp only [refused, decide_eq_true_eq] at hr
-      exact store_refused_get _ _ _ _ _ hne hm hr
-  | setBext line b d ds => simp only [step]; (repeat' split) <;> simp [refused, Op.stringType]
-  | setCart j c d ds => simp only [step]; (repeat' split) <;> simp [refused, Op.stringType]
-  | setCues cs => simp only [step]; (repeat' split) <;> simp [refused, Op.stringType]
-  | setInst i => simp only [step]; (repeat' split) <;> simp [refused, Op.stringType]
+      exact store_refused_unchanged _ _ _ _ hr
+  | setBext line b d ds => simp only [step]; (repeat' split) <;> simp [refused]
+  | setCart j c d ds => simp only [step]; (repeat' split) <;> simp [refused]
+  | setCues cs => simp only [step]; (repeat' split) <;> simp [refused]
+  | setInst i => simp only [step]; (repeat' split) <;> simp [refused]
 
 /-- non-vacuity: bext on an AIFF handle is refused, bext after the audio is refused; a string after the audio is accepted -/
 example : (step [] [] (MetaState.open .aiff) (.setBext [] bextSample 6 614)).1 = 0 ∧
     (step [] [] (step [] [] (MetaState.open .wav) (.writeAudio [1, 2])).2 (.setBext [] bextSample 6 614)).1 = 0 ∧
     (step [] [] (step [] [] (MetaState.open .wav) (.writeAudio [1, 2])).2 (.setString 1 [65])).1 = 0 ∧
     (step [] [] (MetaState.open .w64) (.setString 1 [65])).1 = SFE_STR_NO_SUPPORT := by decide +kernel
+
+/-- since the repair: once audio has been written no SFC_SET_BROADCAST_INFO changes the size of the bext chunk, so the header
+    that precedes the audio keeps its length (a block of another size is refused, the block set before is kept) -/
+theorem late_bext_keeps_size (pn pv : List Byte) (h : MetaState) (line : List Byte) (b : Bext) (d ds : Nat) (hw : h.haveWritten = true) :
+    ((step pn pv h (.setBext line b d ds)).2.bext.map fun o => o.history.length) = h.bext.map fun o => o.history.length := by
+  simp only [step]
+  split; · rfl
+  split; · rfl
+  split; · rfl
+  split; · rfl
+  split; · rfl
+  split; · rfl
+  rename_i hsz
+  simp only [hw, true_and, ne_eq, Decidable.not_not] at hsz
+  simp [hsz]
+
+/-- … and likewise for the cart chunk -/
+theorem late_cart_keeps_size (pn pv : List Byte) (h : MetaState) (j : Byte) (c : Cart) (d ds : Nat) (hw : h.haveWritten = true) :
+    ((step pn pv h (.setCart j c d ds)).2.cart.map fun o => o.tag.length) = h.cart.map fun o => o.tag.length := by
+  simp only [step]
+  split; · rfl
+  split; · rfl
+  split; · rfl
+  split; · rfl
+  split; · rfl
+  split; · rfl
+  rename_i hsz
+  simp only [hw, true_and, ne_eq, Decidable.not_not] at hsz
+  simp [hsz]
+
+/-- before the repair a second block after the audio was accepted whatever its size: the header grew over the audio -/
+theorem late_grow_old_rule :
+    let h1 := (step [] [] (step [] [] (MetaState.open .wav) (.setBext [] bextSample 6 614)).2 (.writeAudio [1, 2, 3, 4])).2
+    let big : Bext := { bextSample with history := ascii "a much longer coding history line\r\n" }
+    (stepOld [] [] h1 (.setBext [] big 35 643)).1 = 1 ∧
+    ((stepOld [] [] h1 (.setBext [] big 35 643)).2.bext.map fun o => o.history.length) = some 36 ∧ (h1.bext.map fun o => o.history.length) = some 8 ∧
+    (step [] [] h1 (.setBext [] big 35 643)).1 = 0 ∧
+    (step [] [] h1 (.setBext [] { bextSample with timeLow := 77 } 6 614)).1 = 1 := by decide +kernel
+
+/-- SFC_SET_CUE: the later call wins (since the repair); before, the second call reported success and kept the first set -/
+theorem set_cue_last_wins (pn pv : List Byte) (h : MetaState) (cs : List Cue) (hw : h.haveWritten = false) :
+    (step pn pv h (.setCues cs)).1 = 1 ∧ (step pn pv h (.setCues cs)).2.cues = some cs := by
+  simp [step, hw]
+
+theorem second_set_cue_old_rule :
+    let h1 := (stepOld [] [] (MetaState.open .wav) (.setCues [⟨1, 10, 0, 0, 0, 10, []⟩])).2
+    (stepOld [] [] h1 (.setCues [⟨2, 20, 0, 0, 0, 20, []⟩])).1 = 1 ∧
+    (stepOld [] [] h1 (.setCues [⟨2, 20, 0, 0, 0, 20, []⟩])).2.cues = some [⟨1, 10, 0, 0, 0, 10, []⟩] := by decide +kernel
+
+example : (step [] [] (step [] [] (MetaState.open .wav) (.setCues [⟨1, 10, 0, 0, 0, 10, []⟩])).2 (.setCues [⟨2, 20, 0, 0, 0, 20, []⟩])).2.cues
+    = some [⟨2, 20, 0, 0, 0, 20, []⟩] := by decide +kernel
 
 end Sf.Meta
